@@ -59,12 +59,16 @@ ANY_AGG_B = ("COVARIANCE", "CORRELATION", "L0", "L1", "L2", "LINF", "EQUAL")
 DOMAIN_ERRORS = (Exception,)
 C04_OPS = ("add_obs", "sort", "insert_chrono", "insert_at", "remove_list", "remove_obs", "remove_first",
            "remove_last", "extract", "span", "concat", "mod_n", "mod_pattern", "gt", "lt", "set_obs",
-           "fork_reverse", "fork_span", "edit_time", "slice", "pop_obs", "span_track", "sort_radix", "fork_concat")
+           "fork_reverse", "fork_span", "edit_time", "slice", "pop_obs", "span_track", "sort_radix", "fork_concat", "fork_derived", "fork_simplify")
 # steps a session may take whose track holds the same Obs object at two positions (the result of
 # t + t and the like, shared by design): everything that neither creates features nor edits an Obs
 DUP_SAFE_OPS = ("sort", "sort_radix", "remove_list", "remove_obs", "remove_first", "remove_last", "pop_obs",
                 "extract", "slice", "span", "span_track", "gt", "lt", "mod_n", "mod_pattern", "concat",
-                "insert_at", "add_obs", "insert_chrono", "set_obs", "fork_concat", "new_track")
+                "insert_at", "add_obs", "insert_chrono", "set_obs", "fork_concat", "new_track", "fork_derived",
+                "fork_simplify")
+# what a session may do whose observation rows carry values its track does not list (tracks
+# produced by the simplifier): the feature computations of C17, and everything that only moves Obs around
+LOOSE_OK_OPS = DUP_SAFE_OPS + ("abs_curv", "speed", "speed_direct", "ds", "remove")
 C17_OPS = ("abs_curv", "speed", "speed_direct", "ds", "transform", "fork_noise")
 
 
@@ -430,6 +434,9 @@ class TrackWorld(World):
         if st["shape"] == "tree":
             st["tree"] = self._gen_tree(r, m, r.choice([2, 3, 3, 4, 5, 7, 12, 14]))
             st["bare"] = r.random() < 0.5
+            if r.random() < 0.25:
+                st["reflex"] = r.choice("+-*")          # out += tree, out -= tree, out *= tree
+                st["out"] = self._pick_name(r, m, True)
         return st
 
     def _g_expr_noeq(self, r, m):
@@ -515,6 +522,13 @@ class TrackWorld(World):
         return {"other": r.randrange(self.cfg["sessions"]), "to": r.randrange(self.cfg["sessions"]),
                 "how": r.choice(["plus", "plus", "first", "mod2"]), "tag0": self.tagc - 70}
 
+    def _g_fork_derived(self, r, m):
+        return {"to": r.randrange(self.cfg["sessions"]),
+                "how": r.choice(["plus_empty", "plus_empty", "extract_all", "gt0", "lt0", "mod1", "slice_all", "mod2"])}
+
+    def _g_fork_simplify(self, r, m):
+        return {"to": r.randrange(self.cfg["sessions"]), "tol": r.choice([0.001, 0.5, 5.0]), "mode": r.choice([1, 1, 2])}
+
     def _g_span_track(self, r, m):
         return {"other": r.randrange(self.cfg["sessions"])}
 
@@ -542,9 +556,10 @@ class TrackWorld(World):
         return {"i": r.randrange(64)}
 
     def _g_transform(self, r, m):
+        self.tagc += 70
         return {"kind": r.choice(["shift_default", "shift_default", "shift_to", "translate", "scale"]),
                 "i": r.randrange(64), "tx": r.choice([1.0, -2.5, 100.0]), "ty": r.choice([0.0, 3.0]),
-                "h": r.choice([2.0, 0.5, 3.0])}
+                "h": r.choice([2.0, 0.5, 3.0]), "tag0": self.tagc - 70}
 
     def _g_fork_noise(self, r, m):
         self.tagc += 70
@@ -578,6 +593,8 @@ class TrackWorld(World):
         if s not in self.model:
             raise Skip()
         if self.model[s].get("dup_obs") and st.get("op") not in DUP_SAFE_OPS:
+            raise Skip()
+        if self.model[s].get("loose_rows") and st.get("op") not in LOOSE_OK_OPS:
             raise Skip()
         return self.real[s], self.model[s]
 
@@ -614,7 +631,7 @@ class TrackWorld(World):
                              [], hidden)
         for i, o in enumerate(m["obs"]):
             ro = t.getObs(i)
-            if len(ro.features) != len(m["names"]):
+            if (len(ro.features) < len(m["names"])) if m.get("loose_rows") else (len(ro.features) != len(m["names"])):
                 return self.fail(prop, "table.width", "%s: observation %d of session %d carries %d values for %d "
                                  "listed features" % (where, i, s, len(ro.features), len(m["names"])),
                                  len(m["names"]), len(ro.features))
@@ -1395,6 +1412,16 @@ class TrackWorld(World):
                 raise Skip()
             rhs, exp, _, ntemp = self._build_expr(st, m)
             text = "%s=%s" % (out, rhs)
+            if sh == "tree" and st.get("reflex"):
+                # reflexive assignment: a -= b - c means a = a - (b - c)
+                if not self._input_ok(m, out):
+                    raise Skip()
+                cur = self._col(m, out)
+                op = st["reflex"]
+                exp = [(u + v) if op == "+" else ((u - v) if op == "-" else u * v) for u, v in zip(cur, exp)]
+                text = "%s%s=%s" % (out, op, rhs)
+                ntemp += 1
+                self.probe("reflexive_assignment_of_a_compound_expression")
         if st.get("api") == "getitem":
             rv, exc = self.call(t.__getitem__, text)
         else:
@@ -1656,8 +1683,9 @@ class TrackWorld(World):
         self._no_feats(m)
         o, to, how = st["other"], st["to"], st["how"]
         s = st.get("s", 0)
-        if not m["obs"]:
-            raise Skip()
+        if not m["obs"] or m.get("linked") or self.model.get(o, {}).get("linked") or m.get("loose_rows") \
+                or self.model.get(o, {}).get("loose_rows"):
+            raise Skip()            # (its Obs objects also belong to a session that lives on)
         if how == "plus":
             if o not in self.model or self.model[o]["names"] or self.model[o].get("dup_obs") and o != s:
                 raise Skip()
@@ -1691,6 +1719,79 @@ class TrackWorld(World):
             self.probe("same_observation_at_two_positions")
         self.probe("concatenation_becomes_a_session")
         self._check_all("C04", "t + t2 (result kept as a session)")
+
+    def op_fork_derived(self, st):
+        """A track derived by t + <empty track>, extract, >, <, %, [:] becomes a session NEXT TO
+        its source.  The two share their Obs objects (by design) but each has its own list: from
+        now on both only take steps that move observations around, and whatever one does to its
+        sequence must not show in the other."""
+        from tracklib.core import Track
+        t, m = self._sess(st)
+        self._no_feats(m)
+        s, to, how = st.get("s", 0), st["to"], st["how"]
+        n = len(m["obs"])
+        if n == 0 or to == s or self.cfg["sessions"] < 2:
+            raise Skip()
+        calls = {"plus_empty": (lambda: t + Track([]), m["obs"]), "extract_all": (lambda: t.extract(0, n - 1), m["obs"]),
+                 "gt0": (lambda: t > 0, m["obs"]), "lt0": (lambda: t < 0, m["obs"]),
+                 "mod1": (lambda: t % 1, m["obs"]), "slice_all": (lambda: t[:], m["obs"]),
+                 "mod2": (lambda: t % 2, m["obs"][::2])}
+        fn, exp = calls[how]
+        rv, exc = self.call(fn)
+        if exc is not None:
+            return self._unexpected("C04", exc, "derivation %s" % how)
+        self._check_derived("C04", rv, exp, [], "derivation %s" % how, check_feats=False)
+        if self.violations:
+            return
+        nm = {"obs": copy.deepcopy(exp), "names": [], "fresh": {}, "geo": m["geo"] + 1, "dup_obs": True,
+              "linked": True, "loose_rows": m.get("loose_rows", False)}
+        m["dup_obs"] = True
+        m["linked"] = True
+        self.real[to], self.model[to] = rv, nm
+        self.derived.pop(to, None)
+        self.probe("derived_track_lives_on_next_to_its_source")
+        self._check_all("C04", "derivation %s (result kept as a session next to its source)" % how)
+
+    def op_fork_simplify(self, st):
+        """The simplifier returns a track made of the source's Obs objects without the feature
+        table: the rows of its observations carry values the track does not list.  The result
+        becomes a session (the source's session ends); what C17 promises must hold on it."""
+        from tracklib.algo.simplification import simplify
+        t, m = self._sess(st)
+        s, to = st.get("s", 0), st["to"]
+        n = len(m["obs"])
+        if n < 3 or m.get("dup_obs"):
+            raise Skip()
+        rv, exc = self.call(simplify, t, st["tol"], st["mode"])
+        if exc is not None:
+            if isinstance(exc, Exception):
+                self.probe("simplifier_refused_the_geometry")          # closed / degenerate geometries (C16)
+                self._check_all("C17", "refused simplification (nothing may change)")
+                return "domain"
+            return self._unexpected("C17", exc, "simplify")
+        if rv is None or not hasattr(rv, "getObs"):
+            raise Skip()
+        tags = [rv.getObs(i).position.getZ() for i in range(rv.size())]
+        by_tag = {}
+        for o in m["obs"]:
+            by_tag.setdefault(o["z"], []).append(o)
+        if any(g not in by_tag for g in tags) or rv.size() < 2:
+            raise Skip()                 # which fixes survive is C16's subject
+        kept = [copy.deepcopy(by_tag[g][0]) for g in tags]
+        listed = rv.getListAnalyticalFeatures()
+        for o in kept:
+            o["f"] = {k: v for k, v in o["f"].items() if k in listed}
+        nm = {"obs": kept, "names": [x for x in m["names"] if x in listed], "fresh": {}, "geo": m["geo"] + 1,
+              "loose_rows": True}
+        for k in {s, to}:
+            self.real.pop(k, None)
+            self.model.pop(k, None)
+            self.derived.pop(k, None)
+        self.real[to], self.model[to] = rv, nm
+        self.probe("simplified_track_becomes_a_session")
+        if any(len(rv.getObs(i).features) > len(nm["names"]) for i in range(rv.size())):
+            self.probe("observation_rows_longer_than_the_feature_table")
+        self._check_all("C17", "simplify (result kept as a session)")
 
     def op_insert_chrono(self, st):
         t, m = self._sess(st)
@@ -2059,6 +2160,7 @@ class TrackWorld(World):
                       n, t.size())
             return
         self._adopt_positions(t, m)
+        self._retag(t, m, st.get("tag0", 10 ** 6))      # shifts and scalings move the heights: fresh unique tags
         self.probe("track_transformed_in_place")
         self._check_all("C17", "in-place transformation %s of session %d (every other track must be unchanged)"
                         % (k, st.get("s", 0)))
